@@ -171,6 +171,7 @@ def _check_lganm(case):
     tol_cov_law = 100 * EPS * p * law["kappa"] * law["normM"] ** 2 * law["normD"] + 1e-300
     Wp, mu, D, cov, mean = law["W"], law["mu"], law["D"], law["cov"], law["mean"]
     lab = []
+    ratios = []
     targets = set(int(k) for d in ("do", "noise", "shift") for k in case.get(d, {}))
     ctx = "W=%s means=%s variances=%s do=%s noise=%s shift=%s" % (case["W"], case["means"], case["variances"], case.get("do"), case.get("noise"), case.get("shift"))
     for i in range(p):
@@ -197,6 +198,7 @@ def _check_lganm(case):
         msev = must(lib(dist.mse, i, list(pa)), "mse(%d, parents)" % i)
         coefs = np.asarray(coefs, dtype=float)
         e = np.abs(coefs - np.array(X.vto_float(want_b))).max()
+        ratios.append(max(e / tol_coef, abs(float(intercept) - float(mu[i])) / tol_int, abs(float(msev) - float(D[i])) / tol_mse))
         if not e <= tol_coef:
             raise Violation("lganm_coef_wrong", "regress(%d, pa=%s) = %s, incoming weights are %s (err %.3g > tol %.3g); %s"
                             % (i, pa, coefs.tolist(), X.vto_float(want_b), e, tol_coef, ctx))
@@ -210,6 +212,9 @@ def _check_lganm(case):
             lab.append("intervened_family")
         if str(i) in case.get("do", {}):
             lab.append("do_target")
+    if ratios:
+        r = max(ratios)
+        lab.append("link_ratio_%s" % ("lt1e-3" if r < 1e-3 else "lt1e-2" if r < 1e-2 else "lt1e-1" if r < 1e-1 else "lt1"))
     return sorted(set(lab)) + ["lganm"]
 
 
